@@ -2,6 +2,7 @@ package main
 
 import (
 	"context"
+	"sync"
 	"fmt"
 	"os"
 	"path/filepath"
@@ -10,9 +11,37 @@ import (
 
 	"github.com/sharedcode/sop"
 	"github.com/sharedcode/sop/btree"
+	"github.com/sharedcode/sop/common"
 	"github.com/sharedcode/sop/fs"
 	"github.com/sharedcode/sop/infs"
+
+	"verif/harness/sopx"
 )
+
+// faultSpec arms ONE storage failure for the lifecycle call at index At: the first write of the
+// chosen kind issued while that call runs returns an error without being performed.
+//
+//	sr:   StoreRepository.Remove / Update   (removing a created store, count updates)
+//	reg:  Registry.Add / Update / UpdateNoLocks / Remove
+//	tlog: TransactionLog.Add                (commit phases only)
+type faultSpec struct {
+	At   int    `json:"at"`
+	Kind string `json:"kind"`
+}
+
+func faultMatches(ev *sopx.Event, kind string) bool {
+	switch kind {
+	case "sr":
+		return ev.Iface == "sr" && (ev.Method == "Remove" || ev.Method == "Update")
+	case "reg":
+		return ev.Iface == "reg" && (ev.Method == "Add" || ev.Method == "Update" || ev.Method == "UpdateNoLocks" || ev.Method == "Remove")
+	case "tlog":
+		return ev.Iface == "tlog" && ev.Method == "Add"
+	}
+	return false
+}
+
+const tlogFinalizeCommit = 11 // common.finalizeCommit: the first thing phase 2 logs
 
 // The call alphabet of C14 (same numbering as Lifecycle.v / Corr/C14.v).
 const (
@@ -110,14 +139,74 @@ func clsB(ok bool, err error) int {
 
 // runSequence executes one call list against a fresh transaction on dir and returns the result class of every call.
 // A panic inside the library is reported as class 9 for that call and ends the sequence.
-func runSequenceSpec(ctx context.Context, dir string, mode sop.TransactionMode, seq []callSpec) (out []int, panicMsg string) {
-	t, err := infs.NewTransaction(ctx, txOptions(dir, mode))
-	if err != nil {
-		return nil, "NewTransaction: " + err.Error()
+// firedPhase: where the armed failure hit. 0: before phase 2 of a commit (or in a Rollback);
+// 1: in phase 2 before the commit point (the finalizeCommit log record, or the registry update
+// that flips the handles); 2: after the commit point (clean-up, replication: the code only logs
+// such errors, the commit stands).
+func runSequenceSpec(ctx context.Context, dir string, mode sop.TransactionMode, seq []callSpec, fault *faultSpec) (out []int, fired bool, firedPhase int, panicMsg string) {
+	var t sop.Transaction
+	var rec *sopx.Recorder
+	if fault == nil {
+		var err error
+		t, err = infs.NewTransaction(ctx, txOptions(dir, mode))
+		if err != nil {
+			return nil, false, 0, "NewTransaction: " + err.Error()
+		}
+	} else {
+		// same construction as infs.NewTwoPhaseCommitTransaction, storage interfaces decorated
+		env, err := sopx.NewEnv(dir, fs.MinimumModValue)
+		if err != nil {
+			return nil, false, 0, "NewEnv: " + err.Error()
+		}
+		tx, err := env.NewTxn(ctx, mode, -1, "t", false)
+		if err != nil {
+			return nil, false, 0, "NewTxn: " + err.Error()
+		}
+		t, rec = tx.Transaction, env.Rec
+	}
+	newBtree := func() (btree.BtreeInterface[int, int], error) {
+		if fault == nil {
+			return infs.NewBtree[int, int](ctx, storeOptions(), t, nil)
+		}
+		so := storeOptions() // what infs.NewBtree sets, for the decorated store repository
+		so.DisableRegistryStoreFormatting, so.DisableBlobStoreFormatting, so.BlobStoreBaseFolderPath = true, true, dir
+		return common.NewBtree[int, int](ctx, so, t, nil)
+	}
+	var mu sync.Mutex
+	arm := func() {
+		p2, flipped := false, false
+		rec.Reset()
+		rec.Before = func(ev *sopx.Event) sopx.Action {
+			mu.Lock()
+			defer mu.Unlock()
+			isFinalize := ev.Iface == "tlog" && ev.Method == "Add" && ev.Step == tlogFinalizeCommit
+			isFlip := p2 && !flipped && ev.Iface == "reg" && ev.Method == "UpdateNoLocks"
+			if !fired && faultMatches(ev, fault.Kind) {
+				fired = true
+				switch {
+				case isFinalize || isFlip:
+					firedPhase = 1
+				case p2:
+					firedPhase = 2
+				}
+				return sopx.Fail
+			}
+			if isFinalize {
+				p2 = true
+			}
+			if isFlip {
+				flipped = true
+			}
+			return sopx.Proceed
+		}
+		rec.Arm()
 	}
 	var b btree.BtreeInterface[int, int]
 	for i, cs := range seq {
 		c := cs.C
+		if fault != nil && fault.At == i {
+			arm()
+		}
 		r := func() (r int) {
 			defer func() {
 				if p := recover(); p != nil {
@@ -139,7 +228,7 @@ func runSequenceSpec(ctx context.Context, dir string, mode sop.TransactionMode, 
 			case cClose:
 				return cls(t.Close())
 			case cNewBtree:
-				nb, err := infs.NewBtree[int, int](ctx, storeOptions(), t, nil)
+				nb, err := newBtree()
 				if err == nil {
 					b = nb
 				}
@@ -167,6 +256,10 @@ func runSequenceSpec(ctx context.Context, dir string, mode sop.TransactionMode, 
 			return 8
 		}()
 		out = append(out, r)
+		if fault != nil && fault.At == i {
+			rec.Disarm()
+			rec.Before = nil
+		}
 		if r == 9 {
 			break
 		}
@@ -176,7 +269,7 @@ func runSequenceSpec(ctx context.Context, dir string, mode sop.TransactionMode, 
 		defer func() { recover() }()
 		t.Close()
 	}()
-	return out, panicMsg
+	return out, fired, firedPhase, panicMsg
 }
 
 // diskState is the abstract stored data: does store "s" exist, and its items.
